@@ -185,12 +185,14 @@ def _total_over_nodes(run, outname, col, t):
     return sp.expand(rw(dist(sp.expand(tot)))), n
 
 
-def w2c(chk, repo):
-    chk.rule("W2c", "conservation of the distributed weight whatever the lumping idiom: the z forces stored to the load array, summed over all nodes, equal minus the total weight of the elements (structure: sum of element_mass g n; fuel: (fuel_mass + Wf_reserve) g n, halved for a half model)", min_decided=2)
+def w2c(chk, repo, rule="W2c", only=None, min_decided=2):
+    chk.rule(rule, "conservation of the distributed weight whatever the lumping idiom: the z forces stored to the load array, summed over all nodes, equal minus the total weight of the elements (structure: sum of element_mass g n; fuel: (fuel_mass + Wf_reserve) g n, halved for a half model)", min_decided=min_decided)
     from ..symx import SIG
 
     g = grav(repo)
     for rel, cn, outname in ((S + "wing_weight_loads.py", "StructureWeightLoads", "struct_weight_loads"), (S + "fuel_loads.py", "FuelLoads", "fuel_weight_loads")):
+        if only is not None and cn not in only:
+            continue
         c, runs = _runs(repo, rel, cn)
         for r in runs:
             t = r.domains["SYMX"].table
@@ -200,7 +202,7 @@ def w2c(chk, repo):
             tot, n = _total_over_nodes(r, outname, 2, t)
             nlf = a.s("load_factor")
             if tot is None or nlf is None:
-                chk.undecided("W2c", key, c.where, "z-force stores not extracted (%d)" % n, algebraic=True)
+                chk.undecided(rule, key, c.where, "z-force stores not extracted (%d)" % n, algebraic=True)
                 continue
             if cn == "StructureWeightLoads":
                 em = a.s("element_mass")
@@ -209,8 +211,14 @@ def w2c(chk, repo):
                 fm = a.s("fuel_mass")
                 res = [s_ for s_ in tot.free_symbols if s_.name.startswith("cfg:") and "Wf_reserve" in s_.name]
                 sym = _flag(r.sigma, "symmetry")
+                if fm is not None and res and sym is None:
+                    # compute() never consults the symmetry flag: the same expression serves the half
+                    # and the full model, so it has to satisfy both specifications
+                    for symv in (True, False):
+                        check_identity(chk, rule, key + (" [symmetry=%s, flag not consulted]" % symv), c.where, tot, -(fm + res[0]) * g * nlf * (sp.Rational(1, 2) if symv else 1), t, "sum over nodes of the z forces = -(total weight)")
+                    continue
                 want = -(fm + res[0]) * g * nlf * (sp.Rational(1, 2) if sym else 1) if (fm is not None and res and sym is not None) else None
-            check_identity(chk, "W2c", key, c.where, tot, want, t, "sum over nodes of the z forces = -(total weight)")
+            check_identity(chk, rule, key, c.where, tot, want, t, "sum over nodes of the z forces = -(total weight)")
 
 
 def w2(chk, repo):
@@ -268,6 +276,11 @@ def w2(chk, repo):
                         fm = a.s("fuel_mass")
                         res = [s for s in (c1.free_symbols) if s.name.startswith("cfg:") and "Wf_reserve" in s.name]
                         sym = _flag(r.sigma, "symmetry")
+                        if None not in (fm, n) and res and sym is None:
+                            SIG = sp.Function("SIG")
+                            for symv in (True, False):
+                                check_identity(chk, "W2", key + (" total [symmetry=%s, flag not consulted]" % symv), wh, SIG(c1 + c2), -(fm + res[0]) * g * n * (sp.Rational(1, 2) if symv else 1), t, "sum over elements and end nodes of the z forces = -(fuel_mass + Wf_reserve) g n (half model: /2)")
+                            continue
                         if None in (fm, n) or not res or sym is None:
                             chk.undecided("W2", key + " total", wh, "symbols not found", algebraic=True)
                             continue
